@@ -1075,6 +1075,17 @@ fn add_tcp_glue(p: &mut PlanB, seed: u64) {
     for i in 0..3u64 {
         mk(p, &mut k, t_last.max(t) + 1_000_000 + i * 2_000, "unglued", UpTcp::Normal, true);
     }
+    /* the probabilistic faults of the run stop 600 s after the last query that is not a
+     * recovery probe, and the rounds above may have moved that instant: every recovery probe
+     * stays at least 800 s behind it */
+    let last_faulty = p.queries.iter().filter(|q| !q.after_faults).map(|q| q.at_ms).max().unwrap_or(0);
+    let first_probe = p.queries.iter().filter(|q| q.after_faults).map(|q| q.at_ms).min().unwrap_or(u64::MAX);
+    if first_probe < last_faulty + 800_000 {
+        let shift = last_faulty + 800_000 - first_probe;
+        for q in p.queries.iter_mut().filter(|q| q.after_faults) {
+            q.at_ms += shift;
+        }
+    }
 }
 
 fn add_tcp_idle_followups(p: &mut PlanB, r: &mut Rng) {
